@@ -53,12 +53,16 @@ pub fn classify(msg: &str, site: &str, class: &str) -> Option<&'static str> {
     if f == "bind_typed_parameter_list" && m.contains("You have found a bug in oq3_parser") {
         return Some("C03.array_parameter_panics");
     }
+    // an integer literal that has no u128 value (a digit outside its radix: 0b123, or >= 2^128)
+    if (f == "literal_to_asg_texpr" || f == "negative_int_to_asg_type") && m.contains("called `Option::unwrap()` on a `None` value") {
+        return Some("C03.integer_literal_without_value_panics");
+    }
     // inputs the parser accepts although a mandatory constituent is missing or of the wrong kind
     // (call of a literal, `$0` as a name, a string followed by an identifier, compound assignment ...):
     // only token-level mutants and the repository's own snippets reach these
     let missing_child = m.contains("called `Option::unwrap()` on a `None` value") || m.contains("You have found a bug in oq3_parser") || m.contains("Error in oq3_syntax") || m.contains("expr::ExprStmt is None");
     let listed_site = ["call_expr_to_asg_texpr", "expr_to_asg_texpr", "expr_stmt_to_asg_stmt", "stmt_to_asg_stmt", "block_or_stmt", "true_body_block_or_stmt", "qubit_list_to_asg_texpr", "range_expression_to_asg_type", "gate_call_expr_to_asg_stmt", "assignment_stmt_to_asg_stmt", "classical_declaration_statement_to_asg_stmt", "scalar_type_to_type", "index_operator_to_asg_type"].contains(&f);
-    if missing_child && listed_site && (class == "mutant" || class == "corpus") {
+    if missing_child && listed_site && (class == "mutant" || class == "corpus" || class == "witness") {
         return Some("C03.malformed_tree_unwrap_panics");
     }
     None
@@ -129,6 +133,12 @@ pub fn run(args: &[String]) {
                 if mine() {
                     case(&mut w, "template-braceless+prelude", &format!("{PRELUDE}{wrapped}"));
                 }
+            }
+        }
+        // witnesses of listed findings, so that they are reported on every run
+        for t in ["0b123;", "int x = 340282366920938463463374607431768211456;", "x = -0o9;", "def f(mutable array[uint[16], 4, 2] a) {}", "array[int[8], 2] a = {1, 2};"] {
+            if mine() {
+                case(&mut w, "witness", t);
             }
         }
         // the repository's snippets
